@@ -82,6 +82,7 @@ type Lemma struct {
 	Requires []Clause
 	Ensures  []Clause
 	Dec      *Clause
+	Trigger  *Clause  // if set, the proved lemma is handed to every query as a quantified axiom with this pattern
 	Uses     []Clause // explicit instances: other lemma calls or recursive ones, "L(args) if cond"
 	Trusted  bool
 	File     string
@@ -160,7 +161,7 @@ func parseClause(text, file string, line int) Clause {
 var keywords = map[string]bool{"spec": true, "func": true, "trusted": true, "lemma": true, "requires": true,
 	"ensures": true, "ensures_on_panic": true, "may_panic": true, "modifies": true, "loop": true, "decreases": true,
 	"=": true, "witness": true, "ghost": true, "use": true, "assert": true, "replay_domain": true, "props": true,
-	"uninterpreted": true, "nobody": true, "callback": true, "end": true}
+	"uninterpreted": true, "nobody": true, "callback": true, "end": true, "trigger": true}
 
 // LoadSpecs reads every zz_contracts_verif.go below root plus extra files.
 func LoadSpecs(files []string) *Specs {
@@ -347,6 +348,12 @@ func (sp *Specs) loadFile(file string) {
 				panic(fmt.Sprintf("%s:%d: callback <callee> <contract>", base, rl.line))
 			}
 			mustF(curF, base, rl.line).Callbacks[f[0]] = f[1]
+		case "trigger":
+			c := parseClause(rest, base, rl.line)
+			if curL == nil {
+				panic(fmt.Sprintf("%s:%d: trigger outside lemma", base, rl.line))
+			}
+			curL.Trigger = &c
 		case "use":
 			c := parseClause(rest, base, rl.line)
 			if curL != nil {
